@@ -22,7 +22,7 @@ fn pairs(pa: Plan, ua: u8, pb: Plan, ub: u8, alt: bool, tier: Tier) -> Box<dyn C
         ha: MapHarness::new(ca),
         hb: MapHarness::new(cb),
         limits: Limits { max_wall_s: if tier == Tier::Quick { 20.0 } else { 300.0 }, ..Default::default() },
-        max_states: if tier == Tier::Quick { 700 } else { 4000 },
+        max_states: if tier == Tier::Quick { 1500 } else { 20000 },
         wall_cap: if tier == Tier::Quick { 40.0 } else { 1500.0 },
     })
 }
